@@ -5,6 +5,7 @@ import (
 	"math"
 	"math/rand"
 	"strings"
+	"unicode/utf8"
 
 	"github.com/sahilm/fuzzy"
 
@@ -230,6 +231,20 @@ func c07Phase(ctx *Ctx, r *rand.Rand, db *database.Database, dbName, phase strin
 			marker = true
 			ctx.R.Path("marker-queries", 1)
 		}
+		if qi%6 == 1 && qi%4 == 1 && len(q) > 2 && !marker {
+			// pasted text: a no-break space, an ideographic space or an invisible format character inside or instead of a blank
+			odd := []string{"\u00a0", "\u3000", "\u200b", "\u2060", "\ufeff", "\u00ad", "\u2009", "\u202f"}[r.Intn(8)]
+			at := 1 + r.Intn(len(q)-1)
+			for at < len(q) && !utf8.RuneStart(q[at]) {
+				at++
+			}
+			if i := strings.IndexByte(q, ' '); i > 0 && r.Intn(2) == 0 {
+				q = q[:i] + odd + q[i+1:]
+			} else {
+				q = q[:at] + odd + q[at:]
+			}
+			ctx.R.Path("queries-with-non-ascii-blanks-or-format-characters", 1)
+		}
 		if k := qi - 2*len(markers); phase == "load" && k >= 0 && k < len(c07Typos) {
 			q = c07Typos[k]
 			marker = true
@@ -247,6 +262,11 @@ func c07Phase(ctx *Ctx, r *rand.Rand, db *database.Database, dbName, phase strin
 			o.AllPlatforms = false
 			o.Platforms = c04PlatformSets[r.Intn(len(c04PlatformSets))]
 			o.NoCrossPlatform = r.Intn(4) == 0
+		}
+		if qi%7 == 3 && !marker {
+			// only pipeline commands wanted (what an API caller of the typo-tolerant search may ask for)
+			o.PipelineOnly = true
+			ctx.R.Path("pipeline-only-requests", 1)
 		}
 		oOn := o
 		oOn.UseFuzzy = true
@@ -352,6 +372,9 @@ func c07Phase(ctx *Ctx, r *rand.Rand, db *database.Database, dbName, phase strin
 // Otherwise eligibility is witnessed by the engine's own lexical path: a search for one of the entry's words, same filters,
 // no typo tolerance, returns it (both filters apply equally to lexical and typo-fallback answers).
 func c07Eligible(db *database.Database, cmds []vlib.Cmd, i int, o database.SearchOptions) bool {
+	if o.PipelineOnly && !cmds[i].Pipeline {
+		return false // (not flagged as a pipeline: whether its text counts as one is the engine's business - not shown eligible)
+	}
 	if o.AllPlatforms || len(cmds[i].Platform) == 0 {
 		return true
 	}
